@@ -156,6 +156,10 @@ pub fn walk_world(rep: &mut Rep, name: &str, walks: u64, steps: usize, mk: &dyn 
         rep.add("random_walks", 1);
         rep.add(&format!("random_walks_transport_variant_{}", k % 8), 1);
         rep.add("random_walk_actions", acts.len() as i64);
+        if w.reconnects > 0 {
+            rep.add("walks_with_reconnection", 1);
+            rep.add("reconnections_in_walks", w.reconnects as i64);
+        }
         rep.distinct(&w.shape());
         let nv = harvest(rep, &mut w, &id);
         if nv == 0 {
